@@ -26,11 +26,24 @@
 //! systematic family (holds around 0 / H / T x press distances around T and d + T); their
 //! signatures carry `tap-hold-item`, their counters the prefix `th_`. The four older lists with
 //! a layer-while-held item stay judged by invariants only.
+//!
+//! Several tap-dance keys in one configuration (`c17_multi.rs`): two or three keys of one layer are
+//! tap-dance keys (eager+eager, eager+lazy, lazy+lazy, with a plain third key, three dances), each
+//! with its own witness keys, list length and timeout. The model judges every key's dance per key:
+//! a press of another key - plain or tap-dance - ends the running dance, the pressed key starts its
+//! own dance at its first action and its further taps perform ITS second, third ... action; a key
+//! tapped again after another key was pressed starts at its first action again even inside its
+//! own timeout. Exhaustive schedules over the two / three keys and a systematic family of
+//! interleaved taps (press distances around T/2 and T, plain and rolling); signatures
+//! `C17:multi:<forms>:...`, counters with the prefix `multi_`.
 
 use crate::core::sim::{code_name, osc, render_hist, Ev, OutKind, Sim};
 use crate::core::{CaseOut, Check, Ctx};
 use serde_json::{json, Value};
 use std::collections::VecDeque;
+
+#[path = "c17_multi.rs"]
+mod multi;
 
 pub struct C17Check;
 pub static C17: C17Check = C17Check;
@@ -1221,15 +1234,37 @@ fn case_layout(ctx: &Ctx) -> Vec<(usize, u64, u64)> {
     v
 }
 
+/// cases of the configurations with several tap-dance keys (they follow the single-key cases):
+/// (config index in `multi::configs()`, first schedule, last schedule (exclusive)); chunk 0 of each
+/// config also runs the interleaved-taps family
+fn multi_layout(ctx: &Ctx) -> Vec<(usize, u64, u64)> {
+    let chunk = ctx.tier.sel(CHUNK_Q, CHUNK_T);
+    let mut v = vec![];
+    for (ci, c) in multi::configs().iter().enumerate() {
+        let tot = multi::total(ctx.tier, c);
+        let mut s = 0;
+        while s < tot {
+            v.push((ci, s, (s + chunk).min(tot)));
+            s += chunk;
+        }
+    }
+    v
+}
+
 impl Check for C17Check {
     fn id(&self) -> &'static str {
         "C17"
     }
     fn n_cases(&self, ctx: &Ctx) -> u64 {
-        case_layout(ctx).len() as u64
+        (case_layout(ctx).len() + multi_layout(ctx).len()) as u64
     }
     fn describe(&self, ctx: &Ctx, idx: u64) -> Value {
         let lay = case_layout(ctx);
+        if idx as usize >= lay.len() {
+            let ml = multi_layout(ctx);
+            let Some(&(ci, a, b)) = ml.get(idx as usize - lay.len()) else { return Value::Null };
+            return multi::describe(ctx.tier, ci, a, b);
+        }
         let Some(&(ci, a, b)) = lay.get(idx as usize) else { return Value::Null };
         let c = &configs()[ci];
         json!({"config": c.text(), "schedules": format!("exhaustive schedules #{a}..#{b} (up to {} events)", nmax(ctx, c))})
@@ -1237,6 +1272,11 @@ impl Check for C17Check {
     fn run_case(&self, ctx: &Ctx, idx: u64) -> CaseOut {
         let mut out = CaseOut::new();
         let lay = case_layout(ctx);
+        if idx as usize >= lay.len() {
+            let ml = multi_layout(ctx);
+            let Some(&(ci, a, b)) = ml.get(idx as usize - lay.len()) else { return out };
+            return multi::run_case(ctx, ci, a, b);
+        }
         let Some(&(ci, a, b)) = lay.get(idx as usize) else { return out };
         let confs = configs();
         let c = &confs[ci];
@@ -1386,7 +1426,7 @@ impl Check for C17Check {
         out
     }
     fn rule(&self) -> String {
-        "case = one configuration (action lists of 1-4 distinct witness keys x lazy `tap-dance` / `tap-dance-eager` x timeout T in {3,60} x rapid-event-delay {0,5}; plus 4 configurations whose list holds a layer-while-held and a tap-hold item, judged by invariants only; plus 56 configurations whose list holds tap-hold items with distinct tap and hold witness keys: (T, tap-hold timeout H, rapid-event-delay) in {(3,2,0),(3,5,5),(60,20,5),(60,75,0)} x tap-hold positions {10,01,11,101,010} with tap repress timeout 0 and {10,11} with tap repress timeout H x lazy/eager, judged by the model like the plain lists, with N=5/6, gaps additionally {H-1,H}, and instead of the tap family a family of 1-4 taps with holds {0,1,H-1,H,H+1,T-1,T+1}, press distances {d+1,T-1,T,T+1,T+rapid+3,d+T-1,d+T+1}, last hold varied separately, optional interrupting tap) and a chunk of the exhaustive schedule space: every sequence of up to N events (quick N=6; thorough N=8 for T=3, N=7 for T=60; 5/6 for the special lists), each event the toggle of the dance key or of one other key, with every combination of inter-event gaps from {0,1,T-1,T,T+1}, keys still down released afterwards; plus a systematic family of 1-6 taps (holds {0,1,T-1}, press distances {2,T-1,T,T+1,T+rapid+3}, optional interrupting tap before/after the final release). Every schedule runs on the real code and is compared tick by tick with the reference model (key, down/up, tick) unless the statement does not determine it (more presses queued within one examination than list items; special list items), in which case only the invariants are judged. Non-trivial = a schedule with at least one decided dance judged by the model; distinct = (configuration, sequence of (tap count, ending cause), interrupting key present).".into()
+        "case = one configuration (action lists of 1-4 distinct witness keys x lazy `tap-dance` / `tap-dance-eager` x timeout T in {3,60} x rapid-event-delay {0,5}; plus 4 configurations whose list holds a layer-while-held and a tap-hold item, judged by invariants only; plus 56 configurations whose list holds tap-hold items with distinct tap and hold witness keys: (T, tap-hold timeout H, rapid-event-delay) in {(3,2,0),(3,5,5),(60,20,5),(60,75,0)} x tap-hold positions {10,01,11,101,010} with tap repress timeout 0 and {10,11} with tap repress timeout H x lazy/eager, judged by the model like the plain lists, with N=5/6, gaps additionally {H-1,H}, and instead of the tap family a family of 1-4 taps with holds {0,1,H-1,H,H+1,T-1,T+1}, press distances {d+1,T-1,T,T+1,T+rapid+3,d+T-1,d+T+1}, last hold varied separately, optional interrupting tap) and a chunk of the exhaustive schedule space: every sequence of up to N events (quick N=6; thorough N=8 for T=3, N=7 for T=60; 5/6 for the special lists), each event the toggle of the dance key or of one other key, with every combination of inter-event gaps from {0,1,T-1,T,T+1}, keys still down released afterwards; plus a systematic family of 1-6 taps (holds {0,1,T-1}, press distances {2,T-1,T,T+1,T+rapid+3}, optional interrupting tap before/after the final release). Every schedule runs on the real code and is compared tick by tick with the reference model (key, down/up, tick) unless the statement does not determine it (more presses queued within one examination than list items; special list items), in which case only the invariants are judged. Non-trivial = a schedule with at least one decided dance judged by the model; distinct = (configuration, sequence of (tap count, ending cause), interrupting key present). SEVERAL TAP-DANCE KEYS (cases after the single-key ones): 27 configurations in which two or three keys of the layer are tap-dance keys with witness keys of their own - form pairs eager+eager / eager+lazy / lazy+lazy x (list lengths, timeouts, rapid-event-delay) in {((3,3),(3,3),0), ((2,3),(3,3),5), ((1,2),(3,3),5), ((3,2),(60,60),5), ((2,4),(3,5),0), ((3,2),(60,40),0)}, lazy+eager with lengths (2,3)/(3,2), and three keys: eager+eager+plain, eager+lazy+plain, lazy+lazy+plain, eager+eager+eager, eager+eager+lazy, eager+lazy+lazy, lazy+lazy+lazy (T=3, lengths 2-3) - each with a chunk of the exhaustive schedule space: every sequence of up to N events (two keys: quick N=6, N=5 with two different timeouts; thorough N=7 for lengths (3,3), N=6 for timeouts (3,5); three keys: N=5, thorough N=6 with a plain third key), each event the toggle of one of the two / three keys, with every combination of gaps from {0,1} and {T-1,T,T+1} of every timeout, keys still down released afterwards; plus the interleaved-taps family: every sequence of 2-6 taps (2-4 with three keys) over the keys that uses at least two keys x hold {0,1,Tmin-1} x uniform press-to-press distance {2, T/2, T/2+1, T-1, T, T+1 per timeout, Tmax+rapid+3} x released before the next press / only after the next press of a different key (rolling). Every schedule is compared tick by tick with the per-key reference model (the running dance ends at the press of any other key; the pressed key starts its own dance at its first action); distinct = (configuration, sequence of (key, tap count, ending cause)).".into()
     }
     fn assumptions(&self) -> Vec<String> {
         vec![
@@ -1395,7 +1435,8 @@ impl Check for C17Check {
             "schedules where more presses of the dance key are visible in one examination than the list has items left, or where the dance key is pressed again behind the interrupting key within one examination, are judged by invariants only (needs same-millisecond events or taps faster than rapid-event-delay)".into(),
             "lists containing a layer-while-held item are judged by invariants only (nothing stuck, other key neither lost nor reordered nor early, no unexpected output)".into(),
             "lists with tap-hold items: which position is performed follows the same dance rules as for plain keys (the timeout counts every tick from the processing of the previous press of the dance key, also while a tap-hold decision is pending and later events wait); the item performed decides as a plain tap-hold does (appendix A: tap iff the release arrives less than H after the press, tap action followed by the rapid-event-delay pause, hold action at H; a press within the tap repress timeout of the start of a previous tap decision of the same key, with no other key in between, gives the tap action at once). An item performed by a LAZY dance starts deciding in the tick the dance is decided - the guide does not say whether the time the key was held before should count; a different decision at the right position has its own signature (tap-hold-item-decision)".into(),
-            "only plain `tap-hold` items are modelled (not tap-hold-press / -release variants, nested tap-dances or chords); the interrupting key is a plain key".into(),
+            "only plain `tap-hold` items are modelled (not tap-hold-press / -release variants, nested tap-dances or chords); in the single-key families the interrupting key is a plain key".into(),
+            "several tap-dance keys: the statement is read per key - 'another key is pressed' includes another tap-dance key, whose own dance starts at its first action with that press; a key tapped again after another key's press starts a new dance (first action) even if less than its timeout has passed since its previous tap. An eager dance is ended when the other key's press is PROCESSED (events are consumed one per tick, so presses of the same millisecond are processed in arrival order); a lazy dance when the press is seen in the queue. The lists of these configurations hold plain witness keys only (no tap-hold items), at most one lazy dance is undecided at a time by construction (later events wait behind it), and the same two undetermined situations as for one key are judged by invariants only".into(),
             "schedules are physically consistent (press only when up, release only when down) and many schedules run on one kanata instance separated by idle periods; a mismatch is re-judged on a fresh instance before it is reported".into(),
         ]
     }
@@ -1432,6 +1473,41 @@ impl Check for C17Check {
             // presses that start a new dance only because those ticks count
             ("th_eager_presses_after_undecided_ticks", 50_000),
             ("th_eager_new_dance_only_because_undecided_ticks_count", 10_000),
+            // several tap-dance keys in one configuration: schedules judged by the per-key model,
+            // by which forms dance together
+            ("multi_judged_by_model_eager_eager", 500_000),
+            ("multi_judged_by_model_eager_lazy", 500_000),
+            ("multi_judged_by_model_lazy_lazy", 500_000),
+            ("multi_judged_by_model_3keys_eager_eager", 50_000),
+            ("multi_judged_by_model_3keys_eager_lazy", 50_000),
+            ("multi_judged_by_model_3keys_lazy_lazy", 50_000),
+            ("multi_judged_by_model_3keys_eager_eager_eager", 50_000),
+            ("multi_judged_by_model_3keys_eager_eager_lazy", 50_000),
+            ("multi_judged_by_model_3keys_eager_lazy_lazy", 50_000),
+            ("multi_judged_by_model_3keys_lazy_lazy_lazy", 50_000),
+            ("multi_schedules_interleaved_taps_family", 50_000),
+            ("multi_schedules_with_dances_of_2plus_keys", 500_000),
+            ("multi_schedules_with_dances_of_3_keys", 10_000),
+            // a running dance ended by the press of another TAP-DANCE key, by (form ended, form of
+            // the pressed key)
+            ("multi_eager_dances_ended_by_eager_key", 100_000),
+            ("multi_eager_dances_ended_by_lazy_key", 100_000),
+            ("multi_lazy_dances_ended_by_eager_key", 100_000),
+            ("multi_lazy_dances_ended_by_lazy_key", 100_000),
+            ("multi_eager_dances_ended_by_plain_key", 10_000),
+            ("multi_lazy_dances_ended_by_plain_key", 10_000),
+            // the dance that such a press started went on to its second / third action
+            ("multi_eager_dances_of_2plus_taps_started_by_ending_eager_dance", 5_000),
+            ("multi_eager_dances_of_2plus_taps_started_by_ending_lazy_dance", 5_000),
+            ("multi_lazy_dances_of_2plus_taps_started_by_ending_eager_dance", 5_000),
+            ("multi_lazy_dances_of_2plus_taps_started_by_ending_lazy_dance", 5_000),
+            ("multi_eager_dances_of_3plus_taps_started_by_ending_eager_dance", 200),
+            ("multi_eager_dances_of_3plus_taps_started_by_ending_lazy_dance", 200),
+            ("multi_lazy_dances_of_3plus_taps_started_by_ending_eager_dance", 200),
+            ("multi_lazy_dances_of_3plus_taps_started_by_ending_lazy_dance", 200),
+            // taps of a key inside its own timeout with a press of another key in between
+            ("multi_presses_inside_own_timeout_after_other_key", 20_000),
+            ("multi_lazy_boundary_decisions", 10_000),
         ]
     }
     fn exhaustive(&self, _ctx: &Ctx) -> bool {
